@@ -48,7 +48,7 @@ impl Region {
 
 pub fn run(rep: &mut Report, thorough: bool) {
     crate::util::install_quiet_panic_hook();
-    rep.rule = "a pattern mapping fenced by a PROT_NONE mapping on one side and an unmapped page on the other, target suspended through the real suspend_threads; for each of the three strategies (forced through MemReader::for_*): EXHAUSTIVE small grid (every end distance 0..16 x every length 1..40 at the mapping end, and every start distance 0..16 x length 1..40 at the mapping start), sampled large ranges (4095,4096,4097,65535,65536 at all alignments mod 8), ranges crossing the end by 1..4096 bytes, ranges starting in the fence; both read() and read_to_vec(). Oracle: address-derived pattern. distinct = hash(strategy, start, length); non-trivial = every case".into();
+    rep.rule = "a pattern mapping fenced by a PROT_NONE mapping on one side and an unmapped page on the other, target suspended through the real suspend_threads; for each of the three strategies (forced through MemReader::for_*): EXHAUSTIVE small grid (every end distance 0..16 x every length 1..40 at the mapping end, and every start distance 0..16 x length 1..40 at the mapping start), sampled large ranges (4095,4096,4097,65535,65536 at all alignments mod 8), ranges crossing the end by 1..4096 bytes, ranges starting in the fence; both read() and read_to_vec(); plus short read histories on one auto-selecting reader (MemReader::new) whose first read starts in readable memory. Oracle: address-derived pattern. distinct = hash(strategy, start, length); non-trivial = every case".into();
     let mut rng = Rng::new(rep.seed.wrapping_mul(171_717));
     let ntargets = if thorough { 48 } else { 2 };
     for ti in 0..ntargets {
@@ -219,6 +219,58 @@ pub fn run(rep: &mut Report, thorough: bool) {
                 }
             }
         }
+        // ---- the auto-selecting reader (MemReader::new, what copy_from_process uses): short
+        // histories on ONE reader. The first read is readable or at least starts in readable
+        // memory (a reader whose very first read hits nothing readable gives up for good by
+        // design: not generated); what one read returned must not change what later reads return.
+        for h in 0..(if thorough { 400 } else { 120 }) {
+            let mut mr = MemReader::new(pid);
+            let nreads = 2 + rng.usize_below(4);
+            let mut hist: Vec<String> = Vec::new();
+            for k in 0..nreads {
+                let first_crossing: Vec<&(u64, usize)> = crossing.iter().filter(|(s, _)| region.truth(*s).is_some() && *s >= region.start).collect();
+                let (start, len) = if k == 0 {
+                    if h % 2 == 0 && !first_crossing.is_empty() { **rng.pick(&first_crossing) } else { *rng.pick(&cases) }
+                } else if rng.chance(1, 3) {
+                    *rng.pick(&crossing)
+                } else {
+                    *rng.pick(&cases)
+                };
+                let mapped_prefix = (0..len as u64).take_while(|i| region.truth(start + i).is_some()).count();
+                let api = rng.usize_below(2);
+                let res: Result<Vec<u8>, String> = if api == 0 {
+                    let mut dst = vec![0xAAu8; len];
+                    mr.read(start as usize, &mut dst).map(|n| {
+                        dst.truncate(std::cmp::min(n, len));
+                        dst
+                    }).map_err(|e| format!("{e}"))
+                } else {
+                    mr.read_to_vec(start as usize, std::num::NonZeroUsize::new(len).unwrap()).map_err(|e| format!("{e}"))
+                };
+                hist.push(format!("{}({start:#x}+{len}: {} of {len} readable) -> {}", if api == 0 { "read" } else { "read_to_vec" }, mapped_prefix, match &res { Ok(v) => format!("{} bytes", v.len()), Err(e) => format!("Err({})", e.chars().take(60).collect::<String>()) }));
+                rep.case(fnv(format!("auto/{h}/{k}/{start}/{len}").as_bytes()), true);
+                rep.count("auto_reader_reads", 1);
+                match res {
+                    Ok(v) => {
+                        let bytes_true = v.iter().enumerate().all(|(i, b)| region.truth(start + i as u64) == Some(*b));
+                        let touches_fence = start < region.fence.1 && start + len as u64 > region.fence.0;
+                        let full = mapped_prefix == len;
+                        // (a range reaching into the PROT_NONE fence may come back as a true prefix)
+                        if !bytes_true || v.len() > mapped_prefix || (full && !touches_fence && v.len() != len) || (!full && v.len() >= len) {
+                            rep.violation("C17 auto-selecting reader returned wrong bytes or length", json!({"history": hist, "mapping": format!("[{:#x},{:#x})", region.start, region.end)}));
+                            break;
+                        }
+                    }
+                    // the PROT_NONE fence is readable only to the strategies that force through page
+                    // protections: a range touching it may legitimately fail on the vectored one
+                    Err(_) if mapped_prefix == len && !(start < region.fence.1 && start + len as u64 > region.fence.0) => {
+                        rep.violation("C17 auto-selecting reader failed on a fully readable range after an earlier read on the same reader", json!({"history": hist, "mapping": format!("[{:#x},{:#x})", region.start, region.end)}));
+                        break;
+                    }
+                    Err(_) => {}
+                }
+            }
+        }
         if rep.samples.len() < 3 {
             rep.sample(json!({"mapping": format!("[{:#x},{:#x})", region.start, region.end), "fence": if mirrored { "PROT_NONE after, unmapped before" } else { "PROT_NONE before, unmapped after" }, "readable_cases": cases.len(), "crossing_cases": crossing.len(), "example_cases": cases.iter().take(3).map(|(s, l)| format!("{s:#x}+{l}")).collect::<Vec<_>>()}));
         }
@@ -226,4 +278,5 @@ pub fn run(rep: &mut Report, thorough: bool) {
     }
     rep.require("readable_range_reads", 1000);
     rep.require("partly_unreadable_range_reads", 50);
+    rep.require("auto_reader_reads", 100);
 }
